@@ -16,6 +16,8 @@ import tempfile
 import time
 
 VERIF = os.path.dirname(os.path.dirname(os.path.abspath(__file__)))
+# results of runs against another tree (VERIF_SUT=<dir>: mutants, the pinned commit) never touch /verif/evidence
+OUT = VERIF if not os.environ.get("VERIF_SUT") else os.path.join(tempfile.gettempdir(), "mpv-alt-out")
 SPEC = os.path.join(VERIF, "spec")
 REPO = os.environ.get("VERIF_SUT", "/repo")
 SEED = int(os.environ.get("VERIF_SEED", "0") or 0)
@@ -67,7 +69,7 @@ def sut():
 
 def repo_rev():
     try:
-        return subprocess.check_output(["git", "-C", REPO, "rev-parse", "--short", "HEAD"]).decode().strip()
+        return subprocess.check_output(["git", "-C", REPO, "rev-parse", "--short", "HEAD"], stderr=subprocess.DEVNULL).decode().strip()
     except Exception:
         return "unknown"
 
@@ -396,7 +398,7 @@ class Check(object):
         known = load_known()
         rc = 0
         nviol = 0
-        os.makedirs(os.path.join(VERIF, "replays"), exist_ok=True)
+        os.makedirs(os.path.join(OUT, "replays"), exist_ok=True)
         for sig in sorted(self.findings):
             desc, replay, count = self.findings[sig]
             if sig in known and known[sig].get("property") == self.prop:
@@ -404,7 +406,7 @@ class Check(object):
                 continue
             nviol += 1
             rc = 1
-            path = os.path.join(VERIF, "replays", "%s-%s.json" % (self.prop, re.sub(r"[^A-Za-z0-9_.-]+", "_", sig)[:80]))
+            path = os.path.join(OUT, "replays", "%s-%s.json" % (self.prop, re.sub(r"[^A-Za-z0-9_.-]+", "_", sig)[:80]))
             with open(path, "w") as f:
                 json.dump({"property": self.prop, "signature": sig, "description": desc, "cases": count,
                            "replay": replay}, f, indent=1, default=str)
@@ -414,8 +416,8 @@ class Check(object):
               "coverage": self.cov, "assumptions": self.assumptions, "wall_s": round(time.time() - self.t0, 2),
               "violations": nviol, "repo_rev": repo_rev(), "notes": self.notes[:50],
               "known_findings_reported": sorted(s for s in self.findings if s in known)}
-        os.makedirs(os.path.join(VERIF, "evidence"), exist_ok=True)
-        with open(os.path.join(VERIF, "evidence", self.prop + ".json"), "w") as f:
+        os.makedirs(os.path.join(OUT, "evidence"), exist_ok=True)
+        with open(os.path.join(OUT, "evidence", self.prop + ".json"), "w") as f:
             json.dump(ev, f, indent=1, default=str)
         print("%s %s: %s  (evaluations=%d, nontrivial=%d, tlc states=%d, traces=%d, %.1fs)" % (
             self.prop, self.tier, "OK" if rc == 0 else "VIOLATED", self.cov["evaluations"],
